@@ -1,5 +1,5 @@
 import PoxModel.Proofs.MatchBits
-import PoxModel.Model.FlowTable
+import PoxModel.Proofs.FlowTable
 import PoxModel.Spec.OF10Match
 set_option linter.unusedSimpArgs false
 /-! Lemmas relating `matchesWith false (ofWire r) (fromPacket p port)` (the code's lookup test) to `Spec.matchHdr r
@@ -427,9 +427,12 @@ theorem ofWire_exact_iff (r : OfMatch) :
 
 /-! ### flow entries as transmitted -/
 
+/-- the `TableEntry` a flow-mod creates: 16-bit priority, the match object `unpack(flow_mod=True)` yields; the payload remembers the
+    flow as transmitted -/
+def toEntry (f : Spec.Flow) : Entry Spec.Flow := { priority := f.priority, mtch := f.mtch.ofWire, data := f }
+
 /-- the table after the flow-mods `fs` (in order); each entry remembers the flow it came from -/
-def install (fs : List Spec.Flow) : Table Spec.Flow :=
-  build (fs.map fun f => { priority := f.priority, mtch := f.mtch.ofWire, data := f })
+def install (fs : List Spec.Flow) : Table Spec.Flow := build (fs.map toEntry)
 
 /-- hypotheses on a transmitted flow entry under which the code treats it as the standard says -/
 structure FlowOk (f : Spec.Flow) : Prop where
@@ -456,5 +459,36 @@ theorem rank_le_iff (f g : Spec.Flow) (hf : FlowOk f) (hg : FlowOk g) :
     first
     | (have := hf.exactL4 hfx; simp_all)
     | (have := hg.exactL4 hgx; simp_all)
+
+
+/-- Lookup in any table that is sorted and whose entries stem from regular transmitted flows answers as the standard prescribes
+    for the flows the table holds. -/
+theorem lookup_isBest (tbl : Table Spec.Flow) (hs : Sorted tbl) (hw : ∀ e ∈ tbl, e = toEntry e.data ∧ FlowOk e.data)
+    (p : PHdr) (port : Nat) (hr : regular p = true) (hpt : pktTos p % 4 = 0) :
+    Spec.IsBest (tbl.map (·.data)) (Spec.headers p port) ((entryForPacket tbl p port).map (·.data)) := by
+  have hacc : ∀ e ∈ tbl, Entry.accepts (fromPacket p port) e = Spec.matchHdr e.data.mtch (Spec.headers p port) := by
+    intro e he
+    obtain ⟨h1, h2⟩ := hw e he
+    rw [h1]
+    exact wire_accepts_packet e.data.mtch p port h2.prereq h2.tos hr hpt
+  obtain ⟨hfound, hmiss⟩ := first_match_max Entry.effectivePriority (Entry.accepts (fromPacket p port)) tbl hs
+  cases hq : entryForPacket tbl p port with
+  | none =>
+    have := hmiss.mp hq
+    simp only [Option.map_none, Spec.IsBest]
+    intro g hg
+    obtain ⟨e, he, rfl⟩ := List.mem_map.mp hg
+    rw [← hacc e he]; exact this e he
+  | some e =>
+    obtain ⟨h1, h2, h3⟩ := hfound e hq
+    simp only [Option.map_some, Spec.IsBest]
+    refine ⟨List.mem_map.mpr ⟨e, h2, rfl⟩, by rw [← hacc e h2]; exact h1, ?_⟩
+    intro g hg hm
+    obtain ⟨e', he', rfl⟩ := List.mem_map.mp hg
+    have hle := h3 e' he' (by rw [hacc e' he']; exact hm)
+    have a := (hw e h2).1
+    have b := (hw e' he').1
+    rw [a, b] at hle
+    exact rank_le_iff e.data e'.data (hw e h2).2 (hw e' he').2 hle
 
 end Pox.OF
